@@ -74,7 +74,10 @@ func runC07(c *Ctx) {
 				}
 				nret++
 				_, rev := hasLit(rs.State, mustRe(`^called:EVM#0\.StateDB\.RevertToSnapshot\(EVM#0\.StateDB\.Snapshot\(\)\)$`))
-				_, errNil := hasLit(rs.State, mustRe(`^(new\(error\)|vm\.run\(.*\)#1|` + PH + `) == nil$`))
+				// error-free means: the error this return hands back is nil on this path (not merely that run() succeeded:
+				// Create replaces a nil error by errMaxCodeSizeExceeded afterwards)
+				et := fr.tr.term(rs.State, rs.Ret.Results[len(rs.Ret.Results)-1], 0)
+				errNil := et == "nil" || rs.State.lits[et+" == nil"]
 				okk := rev || errNil
 				detail := ""
 				if !okk {
